@@ -192,6 +192,63 @@ def watch_turn(fid, cfg, st) -> bool:
     return int(common.sha(fid, cfg, st)[:6], 16) % 6 == 0
 
 
+def watch_transitions(ctx, home, fl, quick):
+    """a running `generate --watch` on a valid, generated package; then the fault is saved and, in the same burst, the (still valid) main model is saved again
+    with a definition appended - what `git checkout` or "save all" does. The package on disk does not validate (a one-shot generate fails), so whatever the
+    watcher does, it must leave every output file as it was."""
+    from props import C20
+    picks = [(fid, f) for fid, f in fl if f[0] != "args" and (fid.startswith(("graph:", "manifest:", "evolution:", "archive:", "yaml:")) or fid.endswith(("@import", "@version")))]
+    if quick:
+        picks = [x for i, x in enumerate(picks) if x[0].startswith(("graph:", "manifest:", "evolution:incompatible", "evolution:missing")) or i % 9 == 0]
+
+    def one(item):
+        fid, fault = item
+        base = os.path.join(ctx.workdir, "cases", "wt_%s" % "".join(ch if ch.isalnum() else "_" for ch in fid))
+        shutil.rmtree(base, ignore_errors=True)
+        pkgdir = make_case(base, "beside", fault)
+        os.makedirs(os.path.join(base, "home"), exist_ok=True)
+        w = C20.Watcher(base, os.path.join(base, "home"), common.build_yardl(), pkgdir=os.path.relpath(pkgdir, base))
+        try:
+            if not w.wait_quiescent_patient(1, limit_s=30):
+                raise Inconclusive("watch transition %s: the first pass did not finish (alive=%s)" % (fid, w.alive()))
+            outdir = os.path.join(base, "w", "out")
+            before = fsmon.snapshot(outdir)
+            if not before:
+                raise Inconclusive("watch transition %s: the first pass wrote nothing" % fid)
+            starts = w.counts()[0]
+            apply_fault(base, "beside", fault)
+            with open(os.path.join(pkgdir, "model.yml"), "a") as f:
+                f.write("\nSavedTogether: !record\n  fields:\n    a: int\n")      # valid on its own, and visible in every output if it were generated
+            ok = w.wait_quiescent_patient(starts + 1, limit_s=25)
+            after = fsmon.snapshot(outdir)
+            alive = w.alive()
+        finally:
+            w.stop()
+        # the package as it is on disk now must be one that a one-shot generate refuses (otherwise the fault is not one in this layout)
+        p = cli.run_cli("generate", pkgdir, home)
+        after2 = fsmon.snapshot(outdir)
+        ctx.ev()
+        ctx.count("watch-transitions")
+        if p.rc == 0:
+            ctx.count("watch-transitions.not-a-fault")
+            shutil.rmtree(base, ignore_errors=True)
+            return
+        ctx.case((fid, "watch-transition"))
+        d = fsmon.diff(before, after, content_only=True)
+        d2 = fsmon.diff(after, after2, content_only=True)
+        what = "fault %s saved together with a (valid) model save while `generate --watch` is running" % fid
+        if not ok and alive and w.counts()[0] <= starts:
+            raise Inconclusive("%s: no regeneration started" % what)
+        if d:
+            ctx.violation("fs-changed:watch-transition:%s" % fid.split(":")[0], "%s: the package on disk does not validate (one-shot generate: rc=%s) but the watcher changed the output: %s" % (what, p.rc, d[:5]),
+                          {"case_dir": base, "diff": d[:40], "watch_tail": cli.clean(open(os.path.join(base, "watch.out"), errors="replace").read())[-800:]})
+        elif d2:
+            ctx.violation("fs-changed:%s" % fid.split(":")[0], "%s: the failing one-shot generate afterwards changed the output: %s" % (what, d2[:5]), {"case_dir": base})
+        else:
+            shutil.rmtree(base, ignore_errors=True)
+    pmap(one, picks, workers=5)
+
+
 def run(ctx):
     common.build_yardl()
     quick = ctx.tier == "quick"
@@ -325,6 +382,7 @@ def run(ctx):
         return (fid, cfg, st, p.rc)
 
     res = pmap(one, jobs)
+    watch_transitions(ctx, home, fl, quick)
     for r in res[:6]:
         ctx.sample({"fault": r[0], "outputs": r[1], "initial_state": r[2], "exit": r[3]})
 
